@@ -67,6 +67,14 @@ impl Prop for C19 {
         let n_wev = rng.usize(4, 120);
         let writes = gen::gen_writes(rng, n_wev, &wc);
 
+        let buffered = rng.chance(1, 3);
+        let flushes = if rng.chance(1, 2) {
+            let k = rng.usize(1, 80);
+            let pm = rng.range(100, 800);
+            gen::gen_flushes(rng, k, pm)
+        } else {
+            vec![]
+        };
         let fault_free = rng.chance(1, 10); // no cancellation at all: baseline of the workload
         let cap_ops = if rng.chance(1, 8) { 200 } else { 30 };
         let n_ops = rng.usize(1, cap_ops);
@@ -96,6 +104,8 @@ impl Prop for C19 {
             mode,
             verify_version: false,
             explicit_gate: true,
+            flushes,
+            buffered,
             inbound,
             reads,
             writes,
@@ -160,10 +170,16 @@ impl Prop for C19 {
 
         // 2. no partial frame on the outgoing side; replies neither lost nor duplicated
         let cancel_in_write = an1.facts.probes.get("cancel_in_pong_write_after_partial").copied().unwrap_or(0)
-            + an1.facts.probes.get("cancel_in_pong_write_before_first_byte").copied().unwrap_or(0);
+            + an1.facts.probes.get("cancel_in_pong_write_before_first_byte").copied().unwrap_or(0)
+            + an1.facts.probes.get("cancel_in_reply_flush").copied().unwrap_or(0);
+        let base_unflushed = an0.violations.iter().any(|x| x.clause == "wire.unflushed");
         if cancel_in_write > 0 && base_ok && !an1.facts.panicked {
             for x in &an1.violations {
-                if matches!(x.clause.as_str(), "wire.torn_pong" | "wire.torn_pong_at_end" | "wire.non_pong_during_read" | "wire.partial_pong_at_return") {
+                if x.clause == "wire.unflushed" && base_unflushed {
+                    // the uninterrupted session does not flush either: not cancellation's doing
+                    continue;
+                }
+                if matches!(x.clause.as_str(), "wire.torn_pong" | "wire.torn_pong_at_end" | "wire.non_pong_during_read" | "wire.partial_pong_at_return" | "wire.unflushed") {
                     rep.violations.push(v("cancel.torn_outgoing", format!("{} {} ({})", tag, x.detail, x.clause)));
                     break;
                 }
@@ -212,6 +228,7 @@ impl Prop for C19 {
             "cancel_in_read_with_partial_frame_buffered",
             "cancel_in_pong_write_before_first_byte",
             "cancel_in_pong_write_after_partial",
+            "cancel_in_reply_flush",
             "cancel_and_keepalive_same_run",
             "write_and_keepalive_same_run",
         ]
